@@ -2,16 +2,23 @@ package parser
 
 import (
 	"github.com/robertkrimen/otto/ast"
+	"github.com/robertkrimen/otto/file"
 )
 
 type scope struct {
 	outer           *scope
 	declarationList []ast.Declaration
 	labels          []string
+	continues       []labelledContinue // continue statements whose label is still being parsed
 	allowIn         bool
 	inIteration     bool
 	inSwitch        bool
 	inFunction      bool
+}
+
+type labelledContinue struct {
+	label string
+	idx   file.Idx
 }
 
 func (p *parser) openScope() {
